@@ -7,7 +7,11 @@ PROP = dict(
     corr_theorems=(
         "bool: joined_eq_any / intersected_eq_all / subtracted_eq / joined_perm / intersected_perm; "
         "sj, sj2: smooth_eq_spec / smoothV2_eq_spec (closure = smoothSpec), smooth_perm / smoothV2_perm, smooth_single, smooth_zero_radius, smooth_far; "
-        "sjm, sj2m, sjf, sj2f: validate the faithful closure model (every permutation / IEEE doubles); "
+        "sjm, sj2m, sjf, sj2f: validate the faithful closure model (every permutation / IEEE doubles); where the two nearest operands report the same "
+        "unit normal and IEEE arithmetic makes the fillet radius NaN (cos = 1.0000000000000002), the sj2f answer is the plain union by "
+        "smoothV2_unordered_radius_eq_union (every scalar structure: an unordered radius adds nothing; the driver re-checks it per line), "
+        "smoothV2_cos_above_one_eq_union / smoothV2_far_nan (ordered field + NaN: plain union whenever |cos| > 1, and for ANY normals when fewer than "
+        "two operands are within the radius) and smoothV2_parallel_eq_union (exact arithmetic: parallel normals give radius 0, the plain union); "
         "sjb, sjb2: smoothSolid_eq_spec / smoothSolidV2_eq_spec (the solid = grown joint bounds and smoothSpec at the point), smoothSolid_perm / "
         "smoothSolidV2_perm (P=1), with smoothSolid_contains_union / _far / _zero_radius / _single / smoothSolidV2_far for the clauses the harness evaluates; "
         "opt: optimize_eq_joined; mux: mux_spec + mux_allcontains_eq; tree: nested_combinators_eq_formula (any nest of Joined / Optimize / SolidMux / "
@@ -20,7 +24,10 @@ PROP = dict(
         "are the model's splitRect / Rect.contains"),
     rule=("bool: ALL bit vectors of length 1..6 x all permutations, 2D and 3D (exhaustive); smooth: operand lists of "
           "length 1..6 with dyadic distances concentrated in [-r,0], radii incl. 0, every permutation evaluated on the real "
-          "closure (SmoothJoin and SmoothJoinV2, 2D and 3D) plus IEEE-double runs; smooth solids (sjb, sjb2): 1..5 SDF operands with different lattice "
+          "closure (SmoothJoin and SmoothJoinV2, 2D and 3D) plus IEEE-double runs; IEEE-double operand lists whose two nearest operands share a unit normal "
+          "(duplicates, concentric, opposite normals; half of the directions redrawn until the self-dot rounds above 1; half of the lists with fewer than two "
+          "operands within the radius) in every operand order, and scenes of the REAL shapes (Sphere/Circle, Rect, Capsule, Cylinder: concentric, the same operand "
+          "twice, coaxial, ordinary) whose real SmoothJoinV2 / SmoothJoin solids are asked at 8..15 points of their padded bounds; smooth solids (sjb, sjb2): 1..5 SDF operands with different lattice "
           "bounds and harness-chosen fields positive only inside their bounds and at most minus the distance to the bounds outside them, one solid object per operand order (listed, reversed, two random) asked at "
           "6..12 points inside / in the margin of / on / outside the grown joint bounds, forward and backward; scenes: 1..9 FuncSolid leaves on a small "
           "lattice (duplicates, nested, coincident bounds), queries on box faces/corners, real Optimize/SolidMux "
@@ -45,11 +52,15 @@ PROP = dict(
         "compare the exact rounding formula of the closure (validation of the faithful model)",
         "math.Sqrt in SmoothJoinV2 is a function parameter of the model (exact runs use normals with 1-cos^2 in {0,1}; "
         "IEEE runs use Float.sqrt)",
+        "IEEE NaN: Lean's Float is opaque, so that a NaN radius is unordered on doubles is not a Lean theorem; the theorems are stated for every scalar "
+        "structure with an unordered radius and for the explicit NaN-extension NF K of an ordered field; the driver executes the closure model on Float "
+        "(comparisons with NaN false, as in Go) and re-checks 'NaN radius => plain union' on every sj2f line",
     ],
     assumptions=[
         "operands respect their own bounds (Solid contract, property C03) for Optimize / SolidMux / StackSolids / nests; SDF operands of a smooth join "
         "are positive only inside their bounds",
-        "no NaN distances or coordinates; finite radius >= 0 in generated cases (the closure theorems hold for every radius)",
+        "no NaN distances or coordinates; finite radius >= 0 in generated cases (the closure theorems hold for every radius); a NaN FILLET radius "
+        "(computed from identical normals) is covered: smoothV2_unordered_radius_eq_union, smoothV2_far_nan",
         "operand lists are non-empty (JoinedSolid.Min of an empty list indexes out of range)",
     ],
     level_text=(
@@ -58,15 +69,18 @@ PROP = dict(
         "for every grouping order given bounded operands, and every NEST of these combinators (with the bounds each one reports to the next) equals the "
         "pointwise boolean formula; the SmoothJoin closure ends with exactly the two largest distances (smooth_top2), hence is permutation invariant, "
         "equals the plain union at radius 0, for one operand and wherever fewer than two operands are within the radius, and only adds points near two "
-        "operands - also as a solid with its grown joint bounds, which never cut the union; StackSolids/StackedSolid are the union translated by the "
+        "operands - also as a solid with its grown joint bounds, which never cut the union; SmoothJoinV2 adds nothing when its fillet radius is NaN "
+        "(identical normals whose self-dot rounds above 1: concentric or duplicated operands) and, in an ordered field with a NaN, equals the plain union for "
+        "arbitrary normals wherever fewer than two operands are within the radius; StackSolids/StackedSolid are the union translated by the "
         "accumulated offsets; after every RectSet history the representation invariant holds, newRectSetSolid terminates and the solid is the union of "
         "the stored boxes, and in every program over live RectSet objects every Solid() call answers for the receiver's current set. The models are tied "
         "to /repo by running the real closures on every permutation of harness-chosen exact operands (and on IEEE doubles), the real smooth-join solids at "
-        "many points per object, the real Optimize/SolidMux/nests/StackSolids on lattice scenes and the real RectSet objects through histories and "
+        "many points per object, the real SmoothJoinV2 / SmoothJoin solids over the library's own shapes (concentric, duplicated, coaxial, ordinary) "
+        "on IEEE doubles, the real Optimize/SolidMux/nests/StackSolids on lattice scenes and the real RectSet objects through histories and "
         "programs with repeated Solid() calls, diffing against the specification the theorems prove the model equal to; splitRect / Rect.Contains are "
         "re-proved equal to the regenerated source on every run."),
     level_note=(
-        "Proved about the models in lean/M3d/Model/SolidAlg.lean, SmoothSolid.lean, SolidExpr.lean, RectSet.lean, RectSetProg.lean. Trusted: Lean kernel, "
+        "Proved about the models in lean/M3d/Model/SolidAlg.lean, SmoothSolid.lean, SmoothNaN.lean, SolidExpr.lean, RectSet.lean, RectSetProg.lean. Trusted: Lean kernel, "
         "propext/Classical.choice/Quot.sound, Go harness + driver, GroupBounders as a permutation, the map-as-list and heap-as-store reading of rect_set.go "
         "(tied per case by the rect/split comparison)."),
 )
